@@ -12,11 +12,11 @@ PROP = 'C05'
 def run(tier):
     out = Outcome(PROP, tier)
     exh = handles.run_handles(out, tier)
-    try:
-        import core_driver
-        core_driver.run_isolation(out, tier)
-    except ImportError:
-        pass
+    import core_driver
+    core_driver.run_isolation(out, tier)
+    # the calls of the repository's own tests: receivers and arguments unchanged
+    import suite
+    suite.run_suite(out, tier, {'iso'}, '-')
     out.exhaustive = False
     out.cov['rule'] = ('handle schedules: one case = one open/close/drop/'
                        'collect schedule x constructor kinds, non-trivial = '
